@@ -6,6 +6,7 @@ package main
 import (
 	"go/token"
 	"go/types"
+	"strings"
 
 	"golang.org/x/tools/go/ssa"
 )
@@ -63,7 +64,70 @@ func classifyErrValue(f *ssa.Function, v ssa.Value, at *ssa.BasicBlock, seen map
 	if cls, ok := nilTestDominates(f, v, at); ok {
 		return cls
 	}
+	// the error result of a local helper or closure (fail := func(err error) (T, error) {
+	// return zero, err }; return fail(e)): what the helper returns at that position, with
+	// its parameters replaced by the arguments of this call
+	if cls, ok := classifyThroughCall(f, v, seen); ok {
+		return cls
+	}
+	// a named result kept in a variable (functions with defer): the value stored last
+	if rv := resolve(v); rv != v && !seen[rv] {
+		return classifyErrValue(f, rv, at, seen)
+	}
 	return retUnknown
+}
+
+func classifyThroughCall(f *ssa.Function, v ssa.Value, seen map[ssa.Value]bool) (retClass, bool) {
+	var call *ssa.Call
+	idx := 0
+	switch x := v.(type) {
+	case *ssa.Extract:
+		c, ok := x.Tuple.(*ssa.Call)
+		if !ok {
+			return retUnknown, false
+		}
+		call, idx = c, x.Index
+	case *ssa.Call:
+		call = x
+	default:
+		return retUnknown, false
+	}
+	g := calleeOf(call)
+	if g == nil {
+		if mc, ok := resolve(call.Call.Value).(*ssa.MakeClosure); ok {
+			g, _ = mc.Fn.(*ssa.Function)
+		} else if fn, ok := resolve(call.Call.Value).(*ssa.Function); ok {
+			g = fn
+		}
+	}
+	if g == nil || g.Blocks == nil || len(seen) > 24 {
+		return retUnknown, false
+	}
+	if p := pkgOf(g); p == nil || !strings.HasPrefix(p.Path(), modPath) {
+		return retUnknown, false
+	}
+	var cls retClass = -1
+	for _, ret := range returnsOf(g) {
+		if idx >= len(ret.Results) {
+			return retUnknown, false
+		}
+		r := ret.Results[idx]
+		var c retClass
+		if pi := paramIndex(g, resolve(r)); pi >= 0 && pi < len(call.Call.Args) {
+			c = classifyErrValue(f, call.Call.Args[pi], call.Block(), seen)
+		} else {
+			c = classifyErrValue(g, r, ret.Block(), seen)
+		}
+		if cls == -1 {
+			cls = c
+		} else if cls != c {
+			return retUnknown, false
+		}
+	}
+	if cls == -1 || cls == retUnknown {
+		return retUnknown, false
+	}
+	return cls, true
 }
 
 // nilTestDominates: the block is reached only through the non-nil (error) or
@@ -815,4 +879,58 @@ func innermostLoop(loops []*natLoop, b *ssa.BasicBlock) *natLoop {
 		}
 	}
 	return best
+}
+
+// throughCall: for the result (or one extracted result) of a call to a module
+// helper or local closure, the values the helper can return at that position,
+// with its parameters replaced by the arguments of this call; nil when v is
+// not such a result.
+func throughCall(v ssa.Value, depth int) []ssa.Value {
+	if depth > 3 {
+		return nil
+	}
+	var call *ssa.Call
+	idx := 0
+	switch x := v.(type) {
+	case *ssa.Extract:
+		c, ok := x.Tuple.(*ssa.Call)
+		if !ok {
+			return nil
+		}
+		call, idx = c, x.Index
+	case *ssa.Call:
+		call = x
+	default:
+		return nil
+	}
+	g := calleeOf(call)
+	if g == nil {
+		if mc, ok := resolve(call.Call.Value).(*ssa.MakeClosure); ok {
+			g, _ = mc.Fn.(*ssa.Function)
+		} else if fn, ok := resolve(call.Call.Value).(*ssa.Function); ok {
+			g = fn
+		}
+	}
+	if g == nil || g.Blocks == nil {
+		return nil
+	}
+	if p := pkgOf(g); p == nil || !strings.HasPrefix(p.Path(), modPath) {
+		return nil
+	}
+	var out []ssa.Value
+	for _, ret := range returnsOf(g) {
+		if idx >= len(ret.Results) {
+			return nil
+		}
+		r := resolve(ret.Results[idx])
+		if pi := paramIndex(g, r); pi >= 0 && pi < len(call.Call.Args) {
+			r = resolve(call.Call.Args[pi])
+		}
+		if inner := throughCall(r, depth+1); inner != nil {
+			out = append(out, inner...)
+		} else {
+			out = append(out, r)
+		}
+	}
+	return out
 }
